@@ -35,7 +35,10 @@ claim("C04", "other",
       "Planner control flow is concrete (depends on unit objects only; every run is checked to have one "
       "path); exact real arithmetic over the binary constants in _ratios; pairs downstream of "
       "declarations C09 finds inconsistent are accepted under any one consistent reading and counted "
-      "as ambiguous_by_C09; compound family is a bounded sample of the property's space.",
+      "as ambiguous_by_C09 in the per-pair comparison, and decided instead by the sizes-feasibility query: per "
+      "dimension, do sizes s_u > 0 exist with every factor the library applies between named units within "
+      "tolerance of s_a/s_b (one z3 LRA query; culprit units named by which removal restores feasibility); "
+      "compound family is a bounded sample of the property's space.",
       "shadow-symbolic execution of real in_unit + z3 LRA per pair vs declaration oracle",
       "DESIGN.md 4/C04", "symnum")
 
@@ -44,10 +47,12 @@ claim("C05", "other",
       "(and scale factor k); z3 decides for ALL m, k: conv(0)=0, sign preserved, conv(k*m)=k*conv(m), "
       "u->u identity, there-and-back within tolerance, via-intermediate equals direct within tolerance, "
       "for all ordered named offset-free pairs, a fixed compound family, fixed triples per dimension and "
-      "a synthetic exactly-consistent system (1e-12).",
+      "a synthetic exactly-consistent system (1e-12); route independence additionally over ALL triples of "
+      "shipped named units of a dimension (one query per ordered pair over the extracted factors, asking for a "
+      "magnitude and an intermediate that differ beyond tolerance).",
       "Planner concrete; exact reals over the code's binary constants; u->u exact for unprefixed units "
-      "and 1e-12 relative for prefixed ones (float reciprocal constants); units whose size is route "
-      "dependent because of a C09 inconsistency are skipped and counted.",
+      "and 1e-12 relative for prefixed ones (float reciprocal constants); compound items touching units whose "
+      "size is route dependent because of a C09 inconsistency are skipped and counted (named pairs and triples are not).",
       "shadow-symbolic execution of composed real conversions + z3 LRA/NRA", "DESIGN.md 4/C05", "symnum")
 
 claim("C09", "other",
@@ -124,7 +129,9 @@ claim("C01", "proof",
       "unbounded symbolic factor exponents, powers, root degrees, prefix exponents and base-unit dimension "
       "vectors; z3 proves that whatever is handed to the constructor satisfies Inv on every path, that equal "
       "keys imply equal dimensions (history independence), and the real __new__/__init__ of Unit, Dimension "
-      "and Prefix are checked against the table model. One inductive step covers operation sequences of any length.",
+      "and Prefix are checked against the table model. One inductive step covers operation sequences of any length; "
+      "the width invariant of the dimension table it relies on is re-established by one step of the real "
+      "Dimension.define from an arbitrary table (symbolic derived dimensions).",
       "<= 3 base units per operand; base-unit dimension vectors symbolic at 3 of 9 positions at a time "
       "(rotated) or taken from registered base units; root degree symbolic for <= 2 factors and enumerated "
       "in [-3,4] for 3 factors; JSON documents not produced by __json__ outside; error-message formatting stubbed.",
@@ -166,7 +173,10 @@ claim("C19", "other",
       "name and symbol without overwriting another object's. (2) Per class the naming life-cycle automaton, "
       "with transitions obtained by running the real constructors, is model-checked by z3 for operation "
       "orders of length <= 4 that leave a first-declared name unbound. (3) Every (name, symbol) literal in the "
-      "shipped modules (AST) must resolve, under several import orders (finite audit).",
+      "shipped modules (AST) must resolve, under several import orders (finite audit). (4) Unit.equals / "
+      "conversions.equate / translate and Dimension.scale run with symbolic magnitudes (and, for scale, the "
+      "zero point's shape and the special values of its numeric type as solver-chosen selectors): a call that "
+      "raises must leave registries and conversion tables as they were.",
       "Strings are concrete (with/without a space); registry invariant 'no symbol with a space is registered' "
       "assumed for pre-states; re-declaring a second name through a constructor is outside; part (3) is an "
       "audit, not a solver claim.",
@@ -182,7 +192,11 @@ claim("C20", "model_checking",
       "trace feasible only while the shared table gives the answers it assumed, whether all threads end "
       "with the table's single object; the AST-derived step system of engine/stepbmc.py is checked too where "
       "its statement forms apply and must agree; a reachability witness guards against vacuity and a "
-      "schedule found is replayed on real threads stepped line by line through sys.settrace.",
+      "schedule found is replayed on real threads stepped line by line through sys.settrace. Side conditions: "
+      "the memoised operator helpers leave every shared container as found; and (engine/initbmc.py) no "
+      "line-level schedule of a creating and a finding thread returns an object with an attribute unassigned "
+      "or reads one before it is assigned -- the step system (attribute reads/writes, flag reads scripted, "
+      "publish/obtain) is recorded from executions of the real constructor through descriptors.",
       "Line granularity (a subset of CPython's preemption points); setdefault of a builtin dict and `with "
       "lock` taken as atomic / mutually exclusive, setdefault of any other table type split into look-up and "
       "store; one key per constructor call; table operations without a model (del, pop, iteration) are a "
@@ -198,7 +212,9 @@ claim("C08", "model_checking",
       "concretised on four shapes of units; z3 model-checks ALL histories of declare(i,j,ratio)/query(i,j) within the bound for a query "
       "that answers differently from the same declarations on empty caches; the abstraction 'empty caches = "
       "shortest declared path' is validated against the real in_unit on every declaration graph over 3 units; "
-      "a history found is replayed in two fresh subprocesses.",
+      "a history found is replayed in two fresh subprocesses. Memo-key soundness (engine/memokeys.py): every "
+      "memoised function found in the source is either keyed by interned objects only, or is called through its "
+      "real lru_cache wrapper with one symbolic value in two numeric types and must answer as its unmemoised body.",
       "N <= 3 units and L <= 5 operations (quick), N <= 4, L <= 7 (thorough); queries on named units of one "
       "dimension (the planner's compound-unit logic is abstracted to path search); lru_cache contract.",
       "AST-extracted cache machine + z3 bounded model checking over symbolic histories", "DESIGN.md 4/C08",
@@ -226,7 +242,9 @@ claim("C17", "model_checking",
       "class word lex identically; the real Unit.parse and Quantity.parse then run on one representative of "
       "EVERY class word of length <= 4 (quick) / 6 (thorough); each parse is checked for result type, "
       "magnitude type as written, allowed exceptions (ParseError/KeyError), determinism (a result that depends "
-      "on earlier parses is replayed after a minimised history) and unchanged registries on rejection. The "
+      "on earlier parses is replayed after a minimised history) and unchanged registries on rejection. Functions "
+      "that parsing.py applies to characters besides the terminals (unicodedata.*, str.is*; read from its AST) "
+      "refine the classes: one representative per (class, observer signature) in words of <= 2 and inside sentences. The "
       "unit arithmetic inside the term/unit_sequence/unit callbacks is executed symbolically for every "
       "exponent up to the digit limit with CPython's int->float range check modelled. AST side conditions: the lexer/driver raise only LarkError subclasses; every callback is "
       "fed the terminal it expects; anonymous unit construction writes no name/symbol registry (E2).",
@@ -257,7 +275,10 @@ claim("C15", "other",
       "dimensions, prefixes and units with unbounded symbolic exponents the real __getnewargs_ex__ fed to the "
       "real __new__ (table model with symbolic membership) returns the object itself on the present path and "
       "registers exactly the object's own intern key on the absent path, and the real __json__ -> "
-      "__from_json__ reproduces the intern key. The transports themselves (pickle, pickle protocol 2, copy, "
+      "__from_json__ reproduces the intern key; Quantity.__json__ -> __from_json__ runs on symbolic int, float "
+      "and Decimal magnitudes, a Decimal travelling as a symbolic text in the language of str(Decimal) whose "
+      "decoding (Decimal(text), int(text), float(text)) is decided by z3 regex membership, so that every path "
+      "must return a Decimal of the same value. The transports themselves (pickle, pickle protocol 2, copy, "
       "deepcopy, json codecs, codecs_installed) are exercised concretely on EVERY registered dimension, prefix "
       "and unit plus a compound family and int/float/Decimal quantities, checking identity, unchanged "
       "names/symbols, magnitude type and (for JSON quantities) physical equality.",
